@@ -268,6 +268,40 @@ def lazy_first_use(ctx: Ctx) -> None:
                               {"feats": feats, "relative_error": worst})
 
 
+def fit_uses_the_gradient(ctx: Ctx) -> None:
+    """The update fit() makes with a plain SGD optimiser IS minus the learning rate times the gradient of the loss on that epoch's
+    paths (read off the parameter change), also when the parameters already carried a gradient when fit() was entered."""
+    from pfhedge.instruments import BrownianStock, EuropeanOption
+    from pfhedge.nn import EntropicRiskMeasure, Hedger
+    lr = 2.0 ** -4
+    for feats in (["log_moneyness", "time_to_maturity", "prev_hedge"], ["log_moneyness", "time_to_maturity", "volatility"]):
+        for stale in (False, True):
+            torch.manual_seed(ctx.seed + 55)
+            model = torch.nn.Sequential(torch.nn.Linear(3, 4, dtype=DT), torch.nn.Tanh(), torch.nn.Linear(4, 1, dtype=DT))
+            hedger = Hedger(model, list(feats), criterion=EntropicRiskMeasure(1.5))
+            d = EuropeanOption(BrownianStock(cost=1e-2, dt=1 / 20, dtype=DT), maturity=6 / 20)
+            if stale:                                            # the user looked at gradient norms before training
+                torch.manual_seed(1)
+                hedger.compute_loss(d, n_paths=8).backward()
+            before = [p.detach().clone() for p in model.parameters()]
+            torch.manual_seed(77)
+            hedger.fit(d, n_epochs=1, n_paths=16, optimizer=torch.optim.SGD(model.parameters(), lr=lr), verbose=False, validation=False)
+            used = [(b - p.detach()) / lr for b, p in zip(before, model.parameters())]
+            with torch.no_grad():
+                for p, b in zip(model.parameters(), before):
+                    p.copy_(b)
+            for p in model.parameters():
+                p.grad = None
+            hedger.train()
+            torch.manual_seed(77)
+            true = torch.autograd.grad(hedger.compute_loss(d, n_paths=16), list(model.parameters()))
+            ctx.count(("fit-gradient", tuple(feats), stale), n=1)
+            worst = max(float((u - t).abs().max() / (1e-6 + t.abs().max())) for u, t in zip(used, true))
+            if worst > 1e-8:
+                ctx.violation("fit:gradient-used", "the parameter change of one fit() epoch with plain SGD is not -lr times the gradient of the loss on that epoch's paths",
+                              {"feats": feats, "gradient_present_before_fit": stale, "relative_error": worst})
+
+
 def check(ctx: Ctx) -> None:
     warnings.filterwarnings("ignore")
     res = ctx.tlc("MC_Grad", "MC_Grad_q_t3.cfg" if ctx.tier == "quick" else "MC_Grad_t_t4.cfg", workers=8, coverage=False)
@@ -282,6 +316,7 @@ def check(ctx: Ctx) -> None:
     finite_differences(ctx)
     two_runs_one_graph(ctx)
     lazy_first_use(ctx)
+    fit_uses_the_gradient(ctx)
     for r in recs:
         ctx.distinct.add(json.dumps([r["p1"], r["p2"], r["cfg"], r["crit"]]))
     ctx.sample(recs[0]); ctx.sample(recs[len(recs) // 2])
